@@ -497,12 +497,59 @@ func ruleEConstIndex(p *Program, r *Reporter) {
 				}
 				if m := minLen(b, base, 0); m >= need {
 					r.OK(in.Pos(), key, fmt.Sprintf("dominating facts give len >= %d", m))
+				} else if m := minLenAtCallers(p, fn, base); m >= need {
+					r.OK(in.Pos(), key, fmt.Sprintf("every caller hands over a slice of at least %d element(s) (one per argument of a variadic function node, which the parser never builds without arguments, or a length the caller has tested)", m))
 				} else {
 					r.Bad(instrPos(in), key, fmt.Sprintf("no dominating length fact guarantees len(%s) >= %d", describeAddr(base), need))
 				}
 			}
 		}
 	}
+}
+
+// minLenAtCallers: base is a slice parameter of fn; the least length every call site of fn guarantees for it: a slice
+// made with one element per argument of a variadic function node (never empty: the parser's variadic helpers reject an
+// empty argument list), or a length fact that dominates the call.
+func minLenAtCallers(p *Program, fn *ssa.Function, base ssa.Value) int64 {
+	prm, ok := base.(*ssa.Parameter)
+	if !ok {
+		return 0
+	}
+	pi := -1
+	for i, q := range fn.Params {
+		if q == prm {
+			pi = i
+		}
+	}
+	if pi < 0 {
+		return 0
+	}
+	best, sites := int64(1<<40), 0
+	for _, g := range p.ReachFuncs(p.Eval) {
+		for _, gb := range g.Blocks {
+			for _, gin := range gb.Instrs {
+				gc, ok := gin.(ssa.CallInstruction)
+				if !ok || gc.Common().StaticCallee() != fn || pi >= len(gc.Common().Args) {
+					continue
+				}
+				sites++
+				arg := gc.Common().Args[pi]
+				m := minLen(gb, arg, 0)
+				if mk, ok := arg.(*ssa.MakeSlice); ok && m < 1 {
+					if c, ok := mk.Len.(*ssa.Call); ok && builtinName(&c.Call) == "len" && isFieldLoad(c.Call.Args[0], "Arguments") && variadicHelpersRejectEmpty(p) {
+						m = 1
+					}
+				}
+				if m < best {
+					best = m
+				}
+			}
+		}
+	}
+	if sites == 0 {
+		return 0
+	}
+	return best
 }
 
 // nonNilFact: some dominating fact says v (by access path) is not nil.
